@@ -46,6 +46,8 @@
 ; a ground term the solver can try for another (a trigger that does not depend on any heap version)
 (declare-fun wit (Str) Bool)
 (assert (forall ((s Str)) (! (wit s) :pattern ((wit s)))))
+(declare-fun witi (Int) Bool)
+(assert (forall ((i Int)) (! (witi i) :pattern ((witi i)))))
 ; iterators over strings (iter.Seq[string]): how many items, and the items in order
 (declare-fun seq_len (Int) Int)
 (declare-fun seq_item_Str (Int Int) Str)
